@@ -100,3 +100,66 @@ Example g_example :
   /\ option_map (fun r => match r with Ok p => Some (CharPartition_list p, CharPartition_comp_witness p) | Err _ => None end)
        (M_StateInConstruction_make_partition s) = Some (Some ([CharSet_mk 0 9; CharSet_mk 10 20; CharSet_mk 21 196607], 196608)).
 Proof. vm_compute. split; reflexivity. Qed.
+
+(* ---- the whole of build(), on any builder value whose size field counts its states ---- *)
+Definition builder_ok (fuel : nat) (b : AutomatonBuilder) : Prop :=
+  AutomatonBuilder_size b = length (AutomatonBuilder_states b) /\
+  Forall (fun s => small s /\ Forall cs_valid (glabels s) /\ (length (StateInConstruction_transitions s) < fuel)%nat)
+         (AutomatonBuilder_states b).
+
+Lemma builder_ok_states fuel b : builder_ok fuel b -> Forall (state_ok fuel) (AutomatonBuilder_states b).
+Proof.
+  intros [_ H]. rewrite Forall_forall in *. intros s Hs. destruct (H s Hs) as (Hsm & Hv & Hf).
+  split; [exact Hsm|]. split; [apply glabels_valid; exact Hv|exact Hf].
+Qed.
+Lemma builder_ok_valid fuel b : builder_ok fuel b -> Forall (fun s => Forall cs_valid (lbls s)) (convb_states b).
+Proof.
+  intros [_ H]. unfold convb_states. rewrite Forall_map. rewrite Forall_forall in *. intros s Hs.
+  destruct (H s Hs) as (_ & Hv & _). exact Hv.
+Qed.
+
+(* build never panics; it fails with the irregularity of the first irregular state (labels that
+   overlap, a default on a fully covered state, no default on a partially covered one) and otherwise
+   returns an automaton whose k-th state has exactly the successors the k-th state in construction
+   specifies (st_ok: finality kept, next = the covering transition, else the declared default) *)
+Lemma g_build_spec fuel b : builder_ok fuel b ->
+  match first_some sic_err (convb_states b) with
+  | Some e => exists b' e', M_AutomatonBuilder_build fuel b = Some (b', Err e') /\ conve e' = Some e
+  | None => exists b' A, M_AutomatonBuilder_build fuel b = Some (b', Ok A) /\
+                         Forall2 st_ok (convb_states b) (astates (conva A)) /\
+                         num_states (conva A) = length (AutomatonBuilder_states b) /\ initial (conva A) = 0%nat /\
+                         num_final (conva A) = length (filter a_final (astates (conva A)))
+  end.
+Proof.
+  intros Hb. pose proof (link_build fuel b (proj1 Hb) (builder_ok_states fuel b Hb)) as H.
+  pose proof (bsc_spec (convb_states b) 0%nat (builder_ok_valid fuel b Hb)) as Hm.
+  unfold build in H. cbn [bstates] in H.
+  destruct (first_some sic_err (convb_states b)) as [e|].
+  - rewrite Hm in H. cbn [bind] in H.
+    destruct (M_AutomatonBuilder_build fuel b) as [[b' [A|e']]|]; cbn [build_res] in H; try discriminate.
+    exists b', e'. split; [reflexivity|]. destruct (conve e'); cbn [option_map] in H; congruence.
+  - destruct Hm as (sts & Hs & Hall). rewrite Hs in H. cbn [bind] in H.
+    destruct (M_AutomatonBuilder_build fuel b) as [[b' [A|e']]|]; cbn [build_res] in H; try discriminate.
+    + exists b', A. split; [reflexivity|]. assert (HA : conva A = {| num_states := length sts; num_final := length (filter a_final sts); initial := 0%nat; astates := sts |}) by congruence.
+      rewrite HA. cbn [astates num_states initial num_final].
+      split; [exact Hall|]. split; [|split; reflexivity].
+      apply Forall2_len in Hall. unfold convb_states in Hall. rewrite map_length in Hall. congruence.
+    + destruct (conve e'); discriminate.
+Qed.
+
+Lemma g_build_never_panics fuel b : builder_ok fuel b -> M_AutomatonBuilder_build fuel b <> None.
+Proof.
+  intros Hb. pose proof (g_build_spec fuel b Hb) as H.
+  destruct (first_some sic_err (convb_states b)); [destruct H as (? & ? & -> & _)|destruct H as (? & ? & -> & _)]; discriminate.
+Qed.
+
+Example g_example_build :
+  let s0 := StateInConstruction_mk false None [(CharSet_mk 0 96, 1%nat); (CharSet_mk 97 97, 0%nat); (CharSet_mk 98 196607, 1%nat)] in
+  let s1 := StateInConstruction_mk true (Some 1%nat) [] in
+  option_map (fun r => match snd r with
+                       | Ok a => Some (Automaton_num_states a, Automaton_num_final_states a,
+                                       map (fun st => (State_successor st, State_default_successor st)) (Automaton_states a))
+                       | Err _ => None end)
+             (M_AutomatonBuilder_build 5 (AutomatonBuilder_mk 2 tt [s0; s1]))
+  = Some (Some (2%nat, 1%nat, [([0%nat], Some 1%nat); ([], Some 1%nat)])).
+Proof. vm_compute. reflexivity. Qed.
